@@ -22,6 +22,7 @@ type SpecEnv struct {
 	pkg   string // short package name used for unqualified names
 	depth int
 	qn    *int
+	witness map[string]Value // existential variable -> witness value (proof-side instantiation)
 	loopSt *State // state at entry of the innermost loop being specified (for atloop(e))
 }
 
@@ -398,6 +399,21 @@ func (se *SpecEnv) evalQuant(x *EQuant) Value {
 	for k, v := range se.vars {
 		nv[k] = v
 	}
+	if !x.Forall && len(se.witness) > 0 {
+		// existential with witnesses for all its variables: instantiate (exists-introduction)
+		all := true
+		for _, qv := range x.Vars {
+			if _, ok := se.witness[qv.Name]; !ok {
+				all = false
+			}
+		}
+		if all {
+			for _, qv := range x.Vars {
+				nv[qv.Name] = se.witness[qv.Name]
+			}
+			return Value{T: se.with(nv).evalBool(x.Body), Sort: "Bool", GoT: types.Typ[types.Bool]}
+		}
+	}
 	var binders []string
 	var guards []string
 	for _, qv := range x.Vars {
@@ -500,6 +516,10 @@ func (se *SpecEnv) evalCall(x *ECall) Value {
 		m := se.eval(x.Args[0])
 		k := se.eval(x.Args[1])
 		return boolV(se.e.mapHas(se.s, m, k))
+	case "errIs":
+		a := se.eval(x.Args[0])
+		b := se.eval(x.Args[1])
+		return boolV(errIs(se.e, a.T, b.T))
 	case "typeof":
 		sfail("typeof must be compared with a type")
 	case "isnil":
@@ -585,6 +605,55 @@ func (se *SpecEnv) callSpec(sf *SpecFunc, args []Expr) Value {
 	}
 	inner.vars = nv
 	inner.depth = se.depth + 1
+	if sf.Abstract {
+		var argT, argS []string
+		for _, p := range sf.Params {
+			argT = append(argT, nv[p.Name].T)
+			argS = append(argS, nv[p.Name].Sort)
+		}
+		ret := "Bool"
+		var rt types.Type = types.Typ[types.Bool]
+		if sf.Ret != nil {
+			rt = inner.resolveType(sf.Ret)
+			ret = se.e.sr.sortOf(rt)
+		}
+		fname := "abs!" + sf.Pkg + "." + sf.Name
+		se.e.ctx.declFun(fname, argS, ret)
+		return Value{T: app(fname, argT...), Sort: ret, GoT: rt}
+	}
+	if sf.Opaque && !se.e.revealed[sf.Name] && se.e.rec == nil {
+		// opaque predicate: an uninterpreted function of its arguments and of the current
+		// versions of the heap maps its definition reads (its footprint)
+		var foot []string
+		se.e.rec = &foot
+		func() {
+			defer func() { se.e.rec = nil }()
+			inner.eval(sf.Body)
+		}()
+		seen := map[string]bool{}
+		var names []string
+		for _, n := range foot {
+			if !seen[n] {
+				seen[n] = true
+				names = append(names, n)
+			}
+		}
+		sortStrings(names)
+		var argT, argS []string
+		for _, p := range sf.Params {
+			argT = append(argT, nv[p.Name].T)
+			argS = append(argS, nv[p.Name].Sort)
+		}
+		fname := "opq!" + sf.Pkg + "." + sf.Name
+		for _, n := range names {
+			argT = append(argT, se.e.heapGet(se.s, n, se.s.hsort[n]))
+			argS = append(argS, se.s.hsort[n])
+			fname += "" 
+		}
+		fname += fmt.Sprintf("!%d", len(names))
+		se.e.ctx.declFun(fname, argS, "Bool")
+		return Value{T: app(fname, argT...), Sort: "Bool", GoT: types.Typ[types.Bool]}
+	}
 	r := inner.eval(sf.Body)
 	if sf.Ret != nil {
 		rt := inner.resolveType(sf.Ret)
